@@ -550,7 +550,11 @@ class ObservableResource(Resource, metaclass=abc.ABCMeta):
                 if is_last:
                     return
         finally:
-            servobs._cancellation_callback()
+            # Only an accepted observation has a cancellation callback; calling
+            # it unconditionally raised AttributeError for declined ones, which
+            # replaced the exception (e.g. a renderable error) being propagated
+            if servobs._accepted:
+                servobs._cancellation_callback()
 
     async def render_to_pipe(self, request: Pipe) -> None:
         warnings.warn(
